@@ -19,4 +19,4 @@ LEVEL_TEXT = ("Unbounded proof of the part of the statement the code satisfies: 
 LEVEL_NOTE = X_NOTE = ("Trusted: Coq kernel; coq/Analysis/XrefModel.v as a description of what create_xref leaves behind; "
                        "tools/vlib/xref_common.py, tools/writers/dexwriter.py.")
 TRUSTED = ["hand-written model coq/Analysis/XrefModel.v", "tools/vlib/xref_common.py, tools/writers/dexwriter.py"]
-STREAMS = [X.STREAM(X.oracle_c14, X.classify_c14)]
+STREAMS = [X.STREAM(X.oracle_c14, X.classify_c14), X.STREAM14_SHADOW()]
